@@ -72,7 +72,13 @@ def run_demo(demo_dir, label):
     """runs build.sh with SRC pointing at the scratch worktree; if the script only builds, runs the demo binary too"""
     env = dict(os.environ, SRC=WT, BUILD_DIR=os.path.join(demo_dir, "_b_" + label), OUT=os.path.join(demo_dir, "_o_" + label),
                WORK=os.path.join(demo_dir, "_w_" + label), LIB_DIR=os.path.join(demo_dir, "_l_" + label), BUILD=os.path.join(demo_dir, "_bb_" + label))
-    rc, out = sh("sh ./build.sh %s %s" % (WT, os.path.join(demo_dir, "_arg2_" + label)), cwd=demo_dir, timeout=1500, env=env)
+    script = open(os.path.join(demo_dir, "build.sh")).read()
+    # scripts take the source tree either as $1 (then a work dir as $2) or only through SRC= and hand "$@" to the demo
+    positional = re.search(r"\$\{?1[:}\-]", script) is not None and 'SRC=${SRC' not in script and 'SRC="${SRC' not in script
+    args = "%s %s" % (WT, os.path.join(demo_dir, "_arg2_" + label)) if positional else ""
+    if "MODE=${1" in script:
+        args = ""
+    rc, out = sh("bash ./build.sh %s" % args, cwd=demo_dir, timeout=1500, env=env)
     ran = None
     m = re.findall(r"built (\S+)", out)
     if rc == 0 and m and not re.search(r"\b(OK|FAIL|ok|PASS|violation)", out):
